@@ -13,6 +13,14 @@ def soups(rng, count, max_atoms=8):
         yield soup.soup(rng, atoms, max_atoms=max_atoms)
 
 
+def custom_soups(rng, vocab, count, max_atoms=8):
+    """Token soups over the names of a generated custom context."""
+    atoms = ['\\' + n for n in vocab.macros] + ['\\begin{%s}' % e for e in vocab.envs] \
+        + ['\\end{%s}' % e for e in vocab.envs] + list(vocab.specials) + ['*', '+', '(', ')', '<', '>', '|', '[', ']']
+    for _ in range(count):
+        yield soup.soup(rng, atoms, max_atoms=max_atoms, p_basic=0.5)
+
+
 class DocSource(object):
     """Generated documents; yields (source, ast, vocab, db, case-describing dict)."""
 
